@@ -2,6 +2,11 @@
 // properties, the operator and the geometry; builders that turn it into pixman objects on guarded buffers; generators.
 #pragma once
 #include "img.hpp"
+#if defined(__has_feature)
+#if __has_feature(address_sanitizer)
+#include <sanitizer/common_interface_defs.h>
+#endif
+#endif
 #include "ref_region.hpp"
 
 namespace scene {
@@ -112,6 +117,13 @@ inline bool acc_ok(const void *p, int size) {
   const uint8_t *q = (const uint8_t *)p;
   for (int i = 0; i < l.n; i++)
     if (q >= l.lo[i] && q + size <= l.hi[i]) return true;
+#if defined(__has_feature)
+#if __has_feature(address_sanitizer)
+  if (getenv("VF_DEBUG") && getenv("VF_DEBUG")[0] == '2') __sanitizer_print_stack_trace();
+#endif
+#endif
+  if (getenv("VF_DEBUG"))  // triage aid: where did the stray access go, relative to the registered storage ranges?
+    for (int i = 0; i < l.n; i++) fprintf(stderr, "[acc] %d bytes at %p: %td bytes from the start, %td bytes from the end of range %d (%td bytes)\n", size, p, q - l.lo[i], q - l.hi[i], i, l.hi[i] - l.lo[i]);
   return false;
 }
 inline uint32_t acc_read(const void *src, int size) {
